@@ -10,7 +10,9 @@ THEOREMS = ["get_intact_mem", "get_intact_disk", "store_invariant_mem", "store_i
             "pin_content_neutral_disk", "reopen_preserves", "corrupt_detected", "corrupt_after_put_detected",
             "deleted_is_absent", "fault_is_local", "coordinate_no_alias", "load_returns_first_content",
             "load_never_retained_is_obstruction", "retain_equal_idempotent", "retain_different_content_rejected",
-            "load_range_is_bounded_slice"]
+            "load_range_is_bounded_slice", "cas_import_ok_is_intact", "withheld_or_corrupt_is_obstruction_cas",
+            "sc_import_ok_is_intact", "withheld_or_corrupt_is_obstruction_sc", "export_import_roundtrip_cas_partial",
+            "export_import_roundtrip_sc_partial"]
 PRE = ("From Coq Require Import List NArith.\nFrom Echo Require Import Base.FinMap Base.Bytes Model.Cas.\n"
        "Import ListNotations.\nOpen Scope N_scope.\n")
 U64 = (1 << 64) - 1
@@ -730,13 +732,19 @@ def run(tier, seed, replay=None):
             for sig in o.split(":", 1)[1].split(","):
                 r.violation(sig, f"implementation oracle failed ({cases[i]['kind']}): {o}",
                             {"case": render_case(cases[i]), "oracle": o, "impl": impl[i] if i < len(impl) else ""})
-    for i in bad[:3]:
+    for n, i in enumerate(bad[:3]):
         c = cases[i]
+        if c["kind"] == "exp":
+            r.is_broken("correspondence", f"model and implementation differ on: {render_case(c)}\n impl : {impl[i]}\n model: {model[i]}")
+            continue
         def still(cand):
             cc = dict(c, ops=cand)
             a, b, _ = both("c20shrink", [cc], bins)
             return a != b
-        small = vf.shrink_list(c["ops"], still, max_rounds=60) if len(c["ops"]) <= 40 else c["ops"]
+        # shrinking re-runs harness + coqc per step: only the first disagreement, and only when the oracle is silent
+        small = c["ops"]
+        if n == 0 and not r.violations and len(c["ops"]) <= 40:
+            small = vf.shrink_list(c["ops"], still, max_rounds=30)
         cc = dict(c, ops=small)
         a, b, o = both("c20shrink", [cc], bins)
         r.is_broken("correspondence", f"model and implementation differ on: {render_case(cc)}\n impl : {a[0]}\n model: {b[0]}")
